@@ -141,7 +141,7 @@ def r1(ctx):
     # elapsed += tick exactly once on the Ok path, after both loops
     aa = [bb for bb, t in b.calls(re.compile(r"Duration as std::ops::AddAssign>::add_assign$")) if "field:turmoil::sim::Sim::elapsed" in Slicer(ctx.w).atoms(b, t["args"][0])]
     tb = [bb for bb, t in b.calls("turmoil::top::Topology::tick_by")]
-    okrets = [bb for bb, i, s in b.all_stmts() if s["p"]["l"] == 0 and s["r"]["k"] == "agg" and s["r"].get("variant") == "Ok"]
+    okrets = [bb for bb, s in ret_aggs(b, "Ok")]
     ok = len(aa) == 1 and len(tb) == 1 and all(b.dominated_by_block(x, aa[0]) and b.dominated_by_block(x, tb[0]) for x in okrets) and bool(okrets)
     ctx.inst(R, "step:elapsed-and-network-once", ok, b.span, "Sim::elapsed and the topology clock advance once on every Ok path" if ok else
              "Sim::elapsed += tick / Topology::tick_by do not happen exactly once on every Ok path of step")
